@@ -350,17 +350,66 @@ impl State {
 
     fn build_from_file(&mut self, path: Xstr, mode: ContextMode) -> Xresult {
         let s = crate::file::fs_overlay::read_source_file(&path)?;
+        let (nested_len, input_len) = (self.nested.len(), self.input.len());
         self.context_open(mode)?;
         self.intern_source(s.into(), Some(path))?;
-        self.build0()?;
-        self.context_close()
+        let res = self.build0();
+        self.build_finish(res, nested_len, input_len)
     }
 
     fn build_from_source(&mut self, s: Xstr, mode: ContextMode) -> Xresult {
+        let (nested_len, input_len) = (self.nested.len(), self.input.len());
         self.context_open(mode)?;
         self.intern_source(s, None)?;
-        self.build0()?;
-        self.context_close()
+        let res = self.build0();
+        self.build_finish(res, nested_len, input_len)
+    }
+
+    fn build_finish(&mut self, res: Xresult, nested_len: usize, input_len: usize) -> Xresult {
+        match res {
+            Ok(()) => {
+                let res = self.context_close();
+                if res.is_err() && self.nested.len() > nested_len {
+                    // the source was built but failed while running: leave its
+                    // context, the machine stays where it stopped
+                    let ip = self.ctx.ip;
+                    self.nested.truncate(nested_len + 1);
+                    if let Some(mut prev) = self.nested.pop() {
+                        if prev.mode == self.ctx.mode {
+                            prev.ip = ip;
+                        }
+                        self.ctx = prev;
+                    }
+                    self.input.truncate(input_len);
+                }
+                res
+            }
+            Err(e) => {
+                self.discard_rejected_build(nested_len, input_len);
+                Err(e)
+            }
+        }
+    }
+
+    // A source rejected while it was read or compiled leaves nothing behind:
+    // its contexts, unread text, half-compiled code and definitions are dropped.
+    fn discard_rejected_build(&mut self, nested_len: usize, input_len: usize) {
+        while self.nested.len() > nested_len {
+            let prev = self.nested.pop().unwrap();
+            let failed = std::mem::replace(&mut self.ctx, prev);
+            if failed.mode != self.ctx.mode {
+                // values produced inside the rejected context
+                self.data_stack.truncate(failed.ds_len);
+            }
+            self.return_stack.truncate(failed.rs_len);
+            self.flow_stack.truncate(failed.fs_len);
+            self.loops.truncate(failed.ls_len);
+            self.special.truncate(failed.ss_ptr);
+            self.code.truncate(failed.cs_len);
+            self.debug_map.truncate(failed.cs_len);
+            self.dict.truncate(failed.di_len);
+        }
+        self.input.truncate(input_len);
     }
 
     pub fn eval_file(&mut self, path: Xstr) -> Xresult {
